@@ -116,7 +116,7 @@ func (t *ClientTransport) Run() {
 }
 
 func (t *ClientTransport) nextPacket() (*parser.Packet, error) {
-	return nextPacket(t.stream)
+	return nextPacket(t.stream, 0)
 }
 
 func (t *ClientTransport) Send(packets ...*parser.Packet) {
